@@ -1,23 +1,86 @@
 import NodisVerif.Model.Val
 /-
-  The only float arithmetic the model performs itself: on integer-valued doubles of magnitude
-  ≤ 2^53 (where IEEE addition and multiplication are exact as long as the result stays in that
-  range). Everything else is `none` ("outside the model"); the generators only do arithmetic on
-  such values. Order and equality of *all* doubles are in Val.lean.
+  IEEE-754 binary64 addition and multiplication on bit patterns, round-to-nearest-even, exact
+  (big-integer arithmetic on significands). Used where nodis adds or multiplies scores
+  (ZINCRBY, ZUNIONSTORE/ZINTERSTORE weights). NaN results are canonicalised to the quiet NaN Go
+  produces on amd64; the generators never feed NaNs.
+  Text conversion (strconv.ParseFloat / FormatFloat) is modelled only on integers (`toInt?`,
+  `ofInt?`): INCRBYFLOAT / HINCRBYFLOAT outside that fragment are "outside the model".
 -/
 namespace NodisVerif.F64
 
 def pow2_53 : Int := 9007199254740992
 
+def sign (a : F64) : Bool := a >>> 63 == 1
+def expBits (a : F64) : Nat := ((a >>> 52) &&& 0x7FF).toNat
+def manBits (a : F64) : Nat := (a &&& 0xFFFFFFFFFFFFF).toNat
+def isInf (a : F64) : Bool := expBits a = 0x7FF && manBits a = 0
+def isZero (a : F64) : Bool := expBits a = 0 && manBits a = 0
+def inf (neg : Bool) : F64 := if neg then 0xFFF0000000000000 else 0x7FF0000000000000
+def qnan : F64 := 0xFFF8000000000000   -- the default NaN of SSE arithmetic (what Go yields on amd64)
+def zero (neg : Bool) : F64 := if neg then 0x8000000000000000 else 0
+
+/-- finite value = M × 2^E -/
+def decode (a : F64) : Nat × Int :=
+  if expBits a = 0 then (manBits a, -1074) else (manBits a + 2 ^ 52, (expBits a : Int) - 1075)
+
+/-- round `n × 2^e` (n > 0) to the nearest double, ties to even -/
+def roundPack (neg : Bool) (n : Nat) (e : Int) : F64 :=
+  if n = 0 then zero neg else
+  let bits : Int := Nat.log2 n + 1
+  let shift : Int := max (bits - 53) (-1074 - e)
+  let (q, e') : Nat × Int :=
+    if shift ≤ 0 then (n <<< (-shift).toNat, e + shift)
+    else
+      let sh := shift.toNat
+      let q := n >>> sh
+      let rem := n % 2 ^ sh
+      let half := 2 ^ (sh - 1)
+      let q := if rem > half ∨ (rem = half ∧ q % 2 = 1) then q + 1 else q
+      if q = 2 ^ 53 then (2 ^ 52, e + shift + 1) else (q, e + shift)
+  if q ≥ 2 ^ 52 then
+    let biased := e' + 1075
+    if biased ≥ 2047 then inf neg
+    else
+      let b : UInt64 := (UInt64.ofNat biased.toNat <<< 52) ||| UInt64.ofNat (q - 2 ^ 52)
+      if neg then b ||| 0x8000000000000000 else b
+  else
+    let b : UInt64 := UInt64.ofNat q
+    if neg then b ||| 0x8000000000000000 else b
+
+def add (a b : F64) : F64 :=
+  if isNaN a ∨ isNaN b then qnan
+  else if isInf a then (if isInf b ∧ sign a ≠ sign b then qnan else a)
+  else if isInf b then b
+  else
+    let (ma, ea) := decode a
+    let (mb, eb) := decode b
+    let e0 := min ea eb
+    let va : Int := (ma * 2 ^ (ea - e0).toNat : Nat)
+    let vb : Int := (mb * 2 ^ (eb - e0).toNat : Nat)
+    let n : Int := (if sign a then -va else va) + (if sign b then -vb else vb)
+    if n = 0 then zero (sign a ∧ sign b)
+    else roundPack (n < 0) n.natAbs e0
+
+def mul (a b : F64) : F64 :=
+  if isNaN a ∨ isNaN b then qnan
+  else
+    let neg := sign a != sign b
+    if isInf a ∨ isInf b then (if isZero a ∨ isZero b then qnan else inf neg)
+    else
+      let (ma, ea) := decode a
+      let (mb, eb) := decode b
+      roundPack neg (ma * mb) (ea + eb)
+
 /-- the integer value of a double, if it is an integer with |x| ≤ 2^53 -/
 def toInt? (a : F64) : Option Int :=
-  let e := ((a >>> 52) &&& 0x7FF).toNat
-  let m := (a &&& 0xFFFFFFFFFFFFF).toNat
-  let neg := a >>> 63 == 1
-  if e = 0 then (if m = 0 then some 0 else none)          -- ±0 ; subnormals are not integers
+  let e := expBits a
+  let m := manBits a
+  let neg := sign a
+  if e = 0 then (if m = 0 then some 0 else none)
   else if e = 0x7FF then none
   else
-    let sig := m + 2 ^ 52                                   -- 1.m × 2^(e-1075)
+    let sig := m + 2 ^ 52
     if e ≥ 1075 then
       let v : Nat := sig * 2 ^ (e - 1075)
       if (v : Int) ≤ pow2_53 then some (if neg then -(v : Int) else v) else none
@@ -31,23 +94,9 @@ def toInt? (a : F64) : Option Int :=
 
 /-- the double with integer value `x`, |x| ≤ 2^53 (exactly representable) -/
 def ofInt? (x : Int) : Option F64 :=
-  if x = 0 then some 0
-  else if x.natAbs > 9007199254740992 then none
-  else
-    let n := x.natAbs
-    let l := Nat.log2 n                       -- n = 1.xxx × 2^l
-    let m : Nat := if l ≤ 52 then (n * 2 ^ (52 - l)) - 2 ^ 52 else 0   -- l = 53 only for n = 2^53
-    let bits : UInt64 := (UInt64.ofNat (l + 1023) <<< 52) ||| UInt64.ofNat m
-    some (if x < 0 then bits ||| ((1 : UInt64) <<< 63) else bits)
+  if x.natAbs > 9007199254740992 then none else some (roundPack (x < 0) x.natAbs 0)
 
-def add? (a b : F64) : Option F64 := do
-  let x ← toInt? a
-  let y ← toInt? b
-  ofInt? (x + y)
-
-def mul? (a b : F64) : Option F64 := do
-  let x ← toInt? a
-  let y ← toInt? b
-  ofInt? (x * y)
+def add? (a b : F64) : Option F64 := some (add a b)
+def mul? (a b : F64) : Option F64 := some (mul a b)
 
 end NodisVerif.F64
